@@ -111,12 +111,85 @@ inductive Scan where
   | dice                 -- `NdM`: not a plain number
 deriving Repr
 
+/-- a die without a count (`d6`): not a number -/
+def diceNoCount (base : Nat) (input : List Char) : Bool :=
+  match input with
+  | 'd' :: c :: _ => base ≤ 10 && c.isDigit
+  | _ => false
+
+/-- the digits directly after the decimal point (none when the recurring part starts at once) -/
+def plainDigits (base : Nat) (thousands : Char) (remaining : List Char) : L (List Nat × List Char) :=
+  match remaining with
+  | '(' :: _ => .ok ([], remaining)
+  | _ => parseInteger true base thousands remaining
+
+/-- recurring digits `(…)` after the plain fraction digits `fs` -/
+def recurPart (base : Nat) (thousands : Char) (fs : List Nat) (input : List Char) :
+    L (Option (List Nat) × Option (List Nat) × List Char) :=
+  match input with
+  | '(' :: afterParen =>
+    match afterParen with
+    | d :: _ =>
+      match digitOf d base with
+      | none => .ok (some fs, none, input)       -- `1.0(a)`: not recurring digits, left for the parser
+      | some _ =>
+        match parseInteger true base thousands afterParen with
+        | .error e => .error e
+        | .ok (rs, input') =>
+          match input' with
+          | ')' :: r => .ok (some fs, some rs, r)
+          | _ => .error .expectedChar
+    | [] => .ok (some fs, none, input)
+  | _ => .ok (some fs, none, input)
+
+/-- decimal point and digits -/
+def fracPart (base : Nat) (sep thousands : Char) (input : List Char) : L (Option (List Nat) × Option (List Nat) × List Char) :=
+  match input with
+  | c :: remaining =>
+    if c == sep then
+      match plainDigits base thousands remaining with
+      | .error e => .error e
+      | .ok (fs, input) => recurPart base thousands fs input
+    else .ok (none, none, input)
+  | [] => .ok (none, none, input)
+
+/-- `NdM` with a count -/
+def diceAfter (base : Nat) (frac : Option (List Nat)) (input : List Char) : Bool :=
+  frac.isNone && base ≤ 10 && (match input with
+    | 'd' :: c :: _ => (digitOf c base).isSome
+    | _ => false)
+
+/-- exponent, bases up to 10 only -/
+def expPart (base : Nat) (thousands : Char) (input : List Char) : L (Option (Bool × List Nat) × List Char) :=
+  if base ≤ 10 then
+    match input with
+    | e :: remaining =>
+      if e == 'e' || e == 'E' then
+        match remaining with
+        | c :: _ =>
+          if c.isDigit || c == '+' || c == '-' then
+            let (neg, r) := match remaining with
+              | '-' :: r => (true, r)
+              | '+' :: r => (false, r)
+              | r => (false, r)
+            match parseInteger true base thousands r with
+            | .error er => .error er
+            | .ok (ds, rest) => .ok (some (neg, ds), rest)
+          else .ok (none, input)
+        | [] => .ok (none, input)
+      else .ok (none, input)
+    | [] => .ok (none, input)
+  else .ok (none, input)
+
+/-- superscript digits directly after the literal: a power, outside this model -/
+def supFollows (base : Nat) (input : List Char) : Bool :=
+  base ≤ 10 && (match input with
+    | c :: _ => c ∈ ['⁰', '¹', '²', '³', '⁴', '⁵', '⁶', '⁷', '⁸', '⁹']
+    | [] => false)
+
 /-- `parse_basic_number` -/
 def parseBasic (base : Nat) (sep thousands : Char) (input : List Char) : L Scan :=
-  let diceNoCount := match input with
-    | 'd' :: c :: _ => base ≤ 10 && c.isDigit
-    | _ => false
-  if diceNoCount then .ok .dice else
+  if diceNoCount base input then .ok .dice else
   -- integer component (absent when the literal starts with the decimal point)
   let startsWithPoint := match input with | c :: _ => c == sep | [] => false
   let intRes : L (List Nat × List Char) :=
@@ -124,73 +197,14 @@ def parseBasic (base : Nat) (sep thousands : Char) (input : List Char) : L Scan 
   match intRes with
   | .error e => .error e
   | .ok (ints, input) =>
-  -- decimal point and digits
-  let fracRes : L (Option (List Nat) × Option (List Nat) × List Char) :=
-    match input with
-    | c :: remaining =>
-      if c == sep then
-        let plainDigits : L (List Nat × List Char) :=
-          match remaining with
-          | '(' :: _ => .ok ([], remaining)
-          | _ => parseInteger true base thousands remaining
-        match plainDigits with
-        | .error e => .error e
-        | .ok (fs, input) =>
-          -- recurring digits
-          match input with
-          | '(' :: afterParen =>
-            match afterParen with
-            | d :: _ =>
-              match digitOf d base with
-              | none => .ok (some fs, none, input)       -- `1.0(a)`: not recurring digits, left for the parser
-              | some _ =>
-                match parseInteger true base thousands afterParen with
-                | .error e => .error e
-                | .ok (rs, input') =>
-                  match input' with
-                  | ')' :: r => .ok (some fs, some rs, r)
-                  | _ => .error .expectedChar
-            | [] => .ok (some fs, none, input)
-          | _ => .ok (some fs, none, input)
-      else .ok (none, none, input)
-    | [] => .ok (none, none, input)
-  match fracRes with
+  match fracPart base sep thousands input with
   | .error e => .error e
   | .ok (frac, recur, input) =>
-  -- dice
-  let isDice := frac.isNone && base ≤ 10 && (match input with
-    | 'd' :: c :: _ => (digitOf c base).isSome
-    | _ => false)
-  if isDice then .ok .dice else
-  -- exponent, bases up to 10 only
-  let expRes : L (Option (Bool × List Nat) × List Char) :=
-    if base ≤ 10 then
-      match input with
-      | e :: remaining =>
-        if e == 'e' || e == 'E' then
-          match remaining with
-          | c :: _ =>
-            if c.isDigit || c == '+' || c == '-' then
-              let (neg, r) := match remaining with
-                | '-' :: r => (true, r)
-                | '+' :: r => (false, r)
-                | r => (false, r)
-              match parseInteger true base thousands r with
-              | .error er => .error er
-              | .ok (ds, rest) => .ok (some (neg, ds), rest)
-            else .ok (none, input)
-          | [] => .ok (none, input)
-        else .ok (none, input)
-      | [] => .ok (none, input)
-    else .ok (none, input)
-  match expRes with
+  if diceAfter base frac input then .ok .dice else
+  match expPart base thousands input with
   | .error e => .error e
   | .ok (exp, input) =>
-    -- superscript digits directly after the literal: a power, outside this model
-    let sup := base ≤ 10 && (match input with
-      | c :: _ => c ∈ ['⁰', '¹', '²', '³', '⁴', '⁵', '⁶', '⁷', '⁸', '⁹']
-      | [] => false)
-    if sup then .error .other else
+    if supFollows base input then .error .other else
     .ok (.num ⟨base, ints, frac, recur, exp⟩ input)
 
 /-- `parse_number`: optional base prefix, then the basic number -/
